@@ -297,7 +297,16 @@ def bool_switch_edges(fn, bool_local):
 
 def result_edges(fn, dest):
     """(ok_target, err_target, how) for the branch on a Result/Option-like local `dest`:
-    a `match` (discriminant switch) or an `is_err()/is_ok()` test.  None if not found or ambiguous."""
+    a `match` (discriminant switch) or an `is_err()/is_ok()` test, directly or after the value went through
+    `map_err` / `map` / `or_else` and the `?` desugaring (`Try::branch`).  None if not found or ambiguous."""
+    for _ in range(4):
+        nxt = None
+        for b, t in fn.calls():
+            if t["args"] and op_local(t["args"][0]) == dest and t["callee"].rsplit("::", 1)[-1] in ("map_err", "map", "or_else", "branch") and t.get("dest") and not t["dest"][1]:
+                nxt = t["dest"][0]
+        if nxt is None or discr_switches_on(fn, dest):
+            break
+        dest = nxt
     sws = discr_switches_on(fn, dest)
     if len(sws) == 1:
         sb, st = sws[0]
@@ -600,7 +609,7 @@ def path_to(via, fid):
 
 
 # ------------------------------------------------------------------ A7 error taint
-def error_taint(fn, sources, sanitizers, clean_variants=("Ok", "Continue", "Some")):
+def error_taint(fn, sources, sanitizers, clean_variants=("Ok", "Continue", "Some"), closure_calls=None):
     """Forward taint of error values.  `sources`: locals holding a Result whose Err payload is
     tainted.  A call whose callee name is in `sanitizers` produces a clean value whatever it
     consumes.  Projections through the variants in `clean_variants` are clean.  Returns the list of
@@ -642,6 +651,8 @@ def error_taint(fn, sources, sanitizers, clean_variants=("Ok", "Continue", "Some
             name = t.get("callee", "").rsplit("::", 1)[-1]
             if name in sanitizers:
                 continue
+            if name in ("map_err", "or_else") and closure_calls and any(closure_calls(x, sanitizers) for x in (t.get("arg_adts") or [])):
+                continue
             if any(op_tainted(a) for a in t["args"]):
                 d = t["dest"][0]
                 if d not in tainted and d != 0:
@@ -653,6 +664,8 @@ def error_taint(fn, sources, sanitizers, clean_variants=("Ok", "Continue", "Some
             t = d[2]
             name = t.get("callee", "").rsplit("::", 1)[-1]
             if name in sanitizers:
+                continue
+            if name in ("map_err", "or_else") and closure_calls and any(closure_calls(x, sanitizers) for x in (t.get("arg_adts") or [])):
                 continue
             if any(op_tainted(a) for a in t["args"]):
                 out.append((d[1], t))
